@@ -81,6 +81,31 @@ Proof.
   split; [repeat constructor; lia|]. split; [lia|]. vm_compute; reflexivity.
 Qed.
 
+(* Skipping uninteresting t-values.
+   FULL STATEMENT (c11_boring_t_sound): under the CDF hypotheses of DESIGN section 6 (Student and normal
+   CDFs monotone and symmetric, t_cdf(-b, nu) >= norm_cdf(-b), norm_cdf(-boring_t) >= p_th/2)
+   assigning p = 1 to every gene with |t| <= boring_t changes no decision at p_th.
+   PROVED: the Holm half - whenever the exact p-values p and the p-values p' actually used
+   agree except at positions where BOTH are >= p_th, the decision vectors of the restricted
+   and of the full correction coincide.
+   MISSING: deriving "|t| <= boring_t => exact p >= p_th" from the CDF hypotheses (the CDFs
+   are not modelled; the harness checks norm_cdf(-boring_t) >= p_th/2 numerically per run). *)
+Theorem c11_boring_t_sound_partial : forall S T p p',
+  Forall (fun x => 0 <= x <= S) p -> Forall (fun x => 0 <= x <= S) p' -> T <= S ->
+  Forall2 (fun v v' => v = v' \/ (T <= v /\ T <= v')) p p' ->
+  map (fun v => v <? T) (correct_ttest S 0 p) = map (fun v => v <? T) (correct_ttest S 0 p') /\
+  map (fun v => v <? T) (approx_correct_ttest S T p') = map (fun v => v <? T) (correct_ttest S 0 p).
+Proof. exact boring_sound_full. Qed.
+Print Assumptions c11_boring_t_sound_partial.
+
+Example c11_boring_nonvacuous :
+  Forall2 (fun v v' => v = v' \/ (100 <= v /\ 100 <= v')) [10; 500; 3; 10; 900; 4] [10; 1000; 3; 10; 1000; 4] /\
+  map (fun v => v <? 100) (approx_correct_ttest 1000 100 [10; 1000; 3; 10; 1000; 4]) = [true; false; true; true; false; true].
+Proof.
+  split; [|vm_compute; reflexivity].
+  repeat (constructor; [first [left; reflexivity | right; lia]|]). constructor.
+Qed.
+
 (* ------------------------------------------------------------------ *)
 (* The penetrance mask.  Scores are x/S.  Vocabulary (Proofs/PenetranceP.v):
      above_floors th (q1, qd, f)    :=  q1_min <= q1 /\ qdiff_min <= qd /\ fold_min <= f
